@@ -41,6 +41,15 @@ CutLemma   == (IsDecimal(x) /\ HasExpWs(x)) =>
                 /\ IsDecimal(c) /\ ~HasExpWs(c) /\ Len(c) < Len(x) /\ SubSeq(x, 1, Len(c)) = c
                 /\ x[Len(c) + 1] \in WS \cup ExpCh
                 /\ Parse(c).hasExp = FALSE
+(* the named deviation (D5): a conversion without the white space rule sees exactly the mantissa,   *)
+(* and differs from the literal's denotation only under the trigger HasExpWs                      *)
+DeviationLemma == IsDecimal(x) =>
+                LET k == ScanNoWs(x).len IN
+                /\ (k = Len(x) <=> ~HasExpWs(x))
+                /\ (HasExpWs(x) => SubSeq(x, 1, k) = CutAtMantissa(x))
+                /\ (~HasExpWs(x) => Denote(SubSeq(x, 1, k)) = Denote(x))
+(* negative control, expected to be VIOLATED: "stopping at the first blank does not change the value" *)
+NC_StopAtBlankHarmless == IsDecimal(x) => Canon(Denote(SubSeq(x, 1, ScanNoWs(x).len))) = Canon(Denote(x))
 SplitLemma == LET sp == Split(x) IN
                 /\ sp.num \o sp.sep \o sp.suffix = x
                 /\ (sp.num # <<>> => IsDecimal(sp.num))
@@ -51,6 +60,10 @@ SplitLemma == LET sp == Split(x) IN
 -----------------------------------------------------------------------------
 (* all shapes within a bound *)
 CONSTANTS DigitSet, WsSet
+DigitsQ == {48, 57}                                    \* 0 9
+DigitsT == {48, 49, 57}                                \* 0 1 9
+WsQ == {<<>>, <<32>>}
+WsT == {<<>>, <<32>>, <<9>>, <<32, 9>>}
 Signs == {<<>>, <<43>>, <<45>>}
 DS(n) == NeStrings(DigitSet, n)
 DS0(n) == Strings(DigitSet, n)
@@ -78,13 +91,12 @@ ShapeLemmas ==
      /\ (HasExpWs(l) => CutAtMantissa(l) = Build(MkShape(x.sg, x.ip, x.pt, x.fp)))
      /\ (IsIntegerLiteral(l) <=> (~x.pt /\ ~x.hasExp))
 (* a suffix of the table, with or without a blank, splits off again (EV starts with an exponent letter) *)
-SuffixSamples == {<<86>>, <<69, 86>>, <<101, 118>>, <<77, 73, 78>>, <<109, 79, 104, 77>>}
+SuffixSamples == {<<86>>, <<69, 86>>, <<109, 79, 104, 77>>}          \* V  EV  mOhM
 ShapeSplit == \A suf \in SuffixSamples, sep \in {<<>>, <<32>>, <<9, 32>>} :
                 LET l == Build(x)
                     sp == Split(l \o sep \o suf)
-                IN sp.num = l /\ sp.sep = sep /\ sp.suffix = suf
-                   /\ Decode(l \o sep \o suf).class = "unit"
-                   /\ Decode(l \o sep \o suf).den = Denote(l)
+                    d == Decode(l \o sep \o suf)
+                IN sp.num = l /\ sp.sep = sep /\ sp.suffix = suf /\ d.class = "unit" /\ d.den = Denote(l)
 
 -----------------------------------------------------------------------------
 (* small-width model of the limb arithmetic (LimbBase = 4: "32 bit" = 2 limbs = 4 bits, "64 bit" = 8 bits) *)
@@ -136,7 +148,7 @@ Limb16Lemmas ==
      /\ (InRange("U32", x.neg, a) <=> (~x.neg \/ n = 0))
      /\ IntExpect("I32", FALSE, a) = N!Pad(a, 2)
      /\ (x.neg /\ n > 0) => /\ IntExpect("I64", TRUE, a)[3] = 65535 /\ IntExpect("I64", TRUE, a)[4] = 65535
-                            /\ N!Trim(N!MulAdd(N!Trim(SubSeq(IntExpect("I32", TRUE, a), 1, 2)), 1, 0)) = N!Trim(IntExpect("I32", TRUE, a))
+                            /\ SubSeq(IntExpect("I64", TRUE, a), 1, 2) = IntExpect("I32", TRUE, a)
      /\ ~InRange("I32", FALSE, N!Pow2(31)) /\ InRange("I32", TRUE, N!Pow2(31)) /\ ~InRange("I32", TRUE, N!Succ(N!Pow2(31)))
      /\ InRange("U32", FALSE, N!Pred(N!Pow2(32))) /\ ~InRange("U32", FALSE, N!Pow2(32))
      /\ ~InRange("I64", FALSE, N!Pow2(63)) /\ InRange("I64", TRUE, N!Pow2(63)) /\ InRange("I64", FALSE, N!Pred(N!Pow2(63)))
